@@ -307,7 +307,18 @@ pub fn gen(prop: &str, rng: &mut Rng, quick: bool, st: &mut Stats) -> Option<Vec
             c.push(format!("hist sync {ops};w:s:0:-"));
         }
         "C20" => {
-            for (k, b) in sample_archives(rng, quick, st).iter().enumerate() {
+            let mut arch = sample_archives(rng, quick, st);
+            for (k, comp) in [Compression::None, Compression::GZip].iter().enumerate() {
+                let sizes = [70_000usize, 65_536, 65_537, 131_073, 200_001];
+                let mut ops = vec![format!("c:{}", comp_tok(*comp))];
+                for (i, sz) in sizes.iter().enumerate() {
+                    ops.push(format!("a:{:x}:{}", 3 + 2 * i, hex_bytes(&rng.bytes(*sz))));
+                    ops.push(format!("a:{:x}:{}", 4 + 2 * i, hex_bytes(&rng.bytes(5))));
+                }
+                arch.push(write_plain(if k == 0 { "sync" } else { "async" }, &ops.join(";")).expect("write"));
+                st.bump("archives_with_tiles_over_64KiB");
+            }
+            for (k, b) in arch.iter().enumerate() {
                 let v = match spec::parse(b, false) {
                     Ok(v) => v,
                     Err(_) => continue,
@@ -382,6 +393,7 @@ pub fn gen(prop: &str, rng: &mut Rng, quick: bool, st: &mut Stats) -> Option<Vec
             for (k, b) in archives.iter().enumerate() {
                 let mode = if k % 2 == 0 { "sync" } else { "async" };
                 c.push(format!("chk_fault open {mode} {} u_u", hex_bytes(b)));
+                c.push(format!("chk_fault_lookup {mode} {}", hex_bytes(b)));
                 if let Ok(h) = spec::decode_header(b) {
                     c.push(format!("chk_fault rdirs {mode} {} {} {:x} {:x} {:x} u_u", hex_bytes(b), ["unknown", "none", "gzip", "brotli", "zstd"][h.icomp as usize % 5], h.root_off, h.root_len, h.leaf_off));
                     c.push(format!("chk_fault hdr_r {mode} {}", hex_bytes(&b[..127.min(b.len())])));
@@ -576,6 +588,10 @@ pub fn run_chk(toks: &[&str]) -> Option<String> {
         ["chk_fault", kind, mode, data, args @ ..] => {
             let data = unhex_bytes(data);
             guard_chk(|| chk_fault(kind, mode, &data, args))
+        }
+        ["chk_fault_lookup", mode, data] => {
+            let data = unhex_bytes(data);
+            guard_chk(|| chk_fault_lookup(mode, &data))
         }
         ["chk_sa_hist", ops] => guard_chk(|| chk_sa_hist(ops)),
         ["chk_sa_op", rest @ ..] => guard_chk(|| chk_sa_op(rest)),
